@@ -142,8 +142,7 @@ def win (impl : String) : P Verdict := do
   let minH := if v == 6 then 60 else 40
   let specified := v != 0 && (hdr == 0 || hdr == minH)
   let spec := if specified then (parseImpl pWin impl).map fun r => decide (WinOk w (some mss) minH ts r) else none
-  let kf := if spec == some false ∧ decide (Huginn.KF.C03.winSaturatedMtuPure w mss minH) then ["KF.C03.winSaturatedMtu"] else []
-  pure { modelEq := impl == model, specOk := if specified then some (spec.getD false) else none, kf := kf,
+  pure { modelEq := impl == model, specOk := if specified then some (spec.getD false) else none,
          tag := s!"win-{arm}{if ts then "+ts" else ""}", model := model,
          spec := match spec with | some true => "holds" | some false => "WinOk-fails" | none => "-" }
 
